@@ -1,10 +1,90 @@
-import PySMT.Core.Eval
-import PySMT.Core.TypeOf
-/-! C02 property theorems (under construction: see DESIGN §5 C02). -/
+import PySMT.Proofs.C02Model
+import PySMT.Proofs.SimpFold
+/-!
+# C02 — Model evaluation returns the exact value: what C01 gives, and fold completeness
+
+Model: `PySMT.Model.getValue` (Impl/Model.lean) = `EagerModel.get_value`
+(pysmt/solvers/eager.py:43-79): complete the assignment with the documented defaults,
+substitute the constants, simplify, return the result if it is a constant.
+
+All theorems are `_partial` for the same reason as in C01: they are stated on the fragment
+`inFrag` of the simplifier model (Boolean/core and arithmetic families so far; bit-vector,
+string and array operators are missing) and on quantifier-free formulas `qf` (the
+property's domain: ground-evaluable formulas) with scalar constants assigned to symbols
+(`AsgOK`; array-valued assignments are outside the fragment). `fold_complete_partial` (all
+arguments constants ⇒ every rule returns a constant: the part of C02 that C01 does not give)
+is proved for every rule of the two families (`FoldOK`, Proofs/SimpFold.lean).
+-/
 namespace PySMT.C02
+open PySMT PySMT.Model PySMT.Simplifier
 
 /-- evaluation of a constant node is its payload (sanity anchor of the semantics) -/
-theorem eval_const_int (I : Interp) (n : Int) : eval I (Term.int n) = .i n := by
-  simp [eval, Term.evalF, Term.int, evalNode, evalOp]
+theorem eval_const_int (I : Interp) (n : Int) : eval I (Term.int n) = .i n := eval_intc I n
+
+/-- **without completion**: if `get_value(f, model_completion=False)` returns `c`, then `c` is a
+constant of the type of `f` and it is the value of `f` under *every* well-formed interpretation
+that extends the assignment and evaluates no division by zero in `f` — in particular under every
+completion of a partial assignment. (partial: fragment `inFrag`, see header) -/
+theorem noCompletion_sound_partial (σ : Asg) (hσ : AsgOK σ) (f c : Term) (τ : Ty) (hwf : f.wf = true)
+    (hqf : qf f = true) (hfr : inFrag f = true) (hty : f.typeOf = some τ)
+    (h : getValue false σ f = some c) :
+    Build.isConstant c = true ∧ c.typeOf = some τ ∧
+      ∀ I : Interp, I.WF → Extends I σ → div0 I f = false → eval I f = eval I c :=
+  getValue_sound_aux σ hσ f τ hwf hqf hfr hty c (by simpa [getValue] using h)
+
+/-- **with completion**: the value returned is the value of `f` under every well-formed
+interpretation extending the *completed* assignment `σ'`, which keeps the given values and gives
+the default constant of its sort to every other free symbol. (partial: fragment `inFrag`) -/
+theorem getValue_sound_partial (σ : Asg) (hσ : AsgOK σ) (f c : Term) (τ : Ty) (hwf : f.wf = true)
+    (hqf : qf f = true) (hfr : inFrag f = true) (hty : f.typeOf = some τ)
+    (h : getValue true σ f = some c) :
+    ∃ σ' : Asg, complete σ f.fv = some σ' ∧ AsgOK σ' ∧ (∀ s v, σ.get s = some v → σ'.get s = some v) ∧
+      Build.isConstant c = true ∧ c.typeOf = some τ ∧
+      ∀ I : Interp, I.WF → Extends I σ' → div0 I f = false → eval I f = eval I c := by
+  simp only [getValue, if_true] at h
+  cases hc : complete σ f.fv with
+  | none => rw [hc] at h; cases h
+  | some σ' =>
+    rw [hc] at h
+    obtain ⟨h1, h2⟩ := complete_ok f.fv σ σ' hσ hc
+    obtain ⟨a, b, d⟩ := getValue_sound_aux σ' h1 f τ hwf hqf hfr hty c h
+    exact ⟨σ', rfl, h1, h2, a, b, d⟩
+
+/-- `get_value` with completion is `get_value` without completion on the completed assignment -/
+theorem completion_defaults (σ σ' : Asg) (f : Term) (h : complete σ f.fv = some σ') :
+    getValue true σ f = getValue false σ' f := by
+  simp [getValue, h]
+
+/-- **fold completeness**: a well-formed formula of the fragment without symbols, function
+applications and quantifiers that evaluates no division by zero simplifies to a constant — every
+rule, applied to constant arguments, returns a constant (`Div(3, 0)` is the only node that stays).
+(partial: fragment `inFrag`) -/
+theorem fold_complete_partial (t : Term) (τ : Ty) (hwf : t.wf = true) (hfr : inFrag t = true)
+    (hty : t.typeOf = some τ) (hg : ground t = true) (I : Interp) (hI : I.WF) (hd : div0 I t = false) :
+    (simp t).op.isConstant = true :=
+  fold_complete t τ hwf hfr hty hg I hI hd
+
+/-- rule level: every entry of the table (except symbols and applications) maps constant
+arguments to a constant -/
+theorem rule_folds (op : Op) (e : Simp.Entry) (h : ruleOf op = some e) (h1 : op ≠ .symbol) (h2 : op ≠ .function) :
+    Simp.FoldOK op e := ruleOf_fold' op e h h1 h2
+
+/-! ## non-vacuity -/
+
+/-- the assignment `x ↦ 3` is admissible, and an interpretation extending it exists -/
+example : AsgOK [(Sym.var "x" .int, Term.int 3)] ∧
+    ∃ I : Interp, Extends I [(Sym.var "x" .int, Term.int 3)] := by
+  constructor
+  · intro s c h
+    simp only [Asg.get] at h
+    split at h
+    · next hs => cases h; subst hs; exact ⟨wf_int 3, typeOf_int 3, rfl⟩
+    · cases h
+  · refine ⟨{ sym := fun _ => .i 3, fn := fun _ _ => .i 0, dom := fun _ => [], div0r := id, div0i := id }, ?_⟩
+    intro s c h
+    simp only [Asg.get] at h
+    split at h
+    · cases h; exact eval_intc _ 3
+    · cases h
 
 end PySMT.C02
